@@ -402,10 +402,10 @@ theorem rules_meaning (q : Rat) (i : Int) (s : String) :
     (Rule.check (.oneOf ["tiny", "small", "base"]) (cstr s) = .ok () ↔ s = "tiny" ∨ s = "small" ∨ s = "base") ∧
     (Rule.check (.oneOf ["Adam", "AdamW"]) (cstr s) = .ok () ↔ s = "Adam" ∨ s = "AdamW") := by
   refine ⟨?_, ?_, ?_, ?_, ?_, ?_, ?_, ?_, ?_⟩
-  · by_cases h : 0 ≤ q ∧ q ≤ 1 <;> simp [Rule.check, fl, Value.asRat?, h]
-  · by_cases h : 0 ≤ q <;> simp [Rule.check, fl, Value.asRat?, h]
-  · by_cases h : q ≤ 1 <;> simp [Rule.check, fl, Value.asRat?, h]
-  · by_cases h : 0 < q <;> simp [Rule.check, fl, Value.asRat?, h]
+  · by_cases h : 0 ≤ q ∧ q ≤ 1 <;> simp [Rule.check, fl, Value.asExt?, Ext.le, h]
+  · by_cases h : 0 ≤ q <;> simp [Rule.check, fl, Value.asExt?, Ext.le, h]
+  · by_cases h : q ≤ 1 <;> simp [Rule.check, fl, Value.asExt?, Ext.le, h]
+  · by_cases h : 0 < q <;> simp [Rule.check, fl, Value.asExt?, Ext.lt, h]
   · by_cases h : 0 ≤ q <;> simp [Rule.check, fl, Value.isNonnegFloat, h]
   · simp [Rule.check, Value.isNonnegFloat]
   · by_cases h : 0 ≤ i <;> simp [Rule.check, Value.isNonnegInt, h]
@@ -414,7 +414,48 @@ theorem rules_meaning (q : Rat) (i : Int) (s : String) :
   · by_cases h1 : s = "Adam" <;> by_cases h2 : s = "AdamW" <;> simp [Rule.check, cstr, h1, h2]
 
 example : Rule.check .prob (fl 2) = .error "ValueError" := by
-  simp [Rule.check, fl, Value.asRat?]; decide
+  simp [Rule.check, fl, Value.asExt?, Ext.le]; decide
+
+/-- **"not a number" is rejected by every validator**, whatever the field -/
+theorem nan_rejected (r : Rule) : r.check (.leaf .nan) ≠ .ok () := by
+  cases r <;> simp [Rule.check, Value.asExt?, Ext.le, Ext.lt, Value.isNonnegFloat, Value.isNonnegInt]
+
+/-- non-finite values: a probability may be neither infinity; the lower-bounded validators
+(`ge(0)`, `gt(0)`, scale / min_lr) refuse `-inf`, the upper-bounded one (`le(1)`) refuses `+inf`,
+device counts refuse both; a list of scales / learning rates containing NaN or `-inf` is refused.
+(`+inf` passes `ge(0)`, `gt(0)`, `validate_scale`, `validate_min_lr` — that is what the code does:
+their documented contract is the one-sided "float >= 0".) -/
+theorem nonfinite_rejected (neg : Bool) (l₁ l₂ : List Value) :
+    Rule.check .prob (.leaf (.inf neg)) ≠ .ok () ∧
+    Rule.check .ge0 (.leaf (.inf true)) ≠ .ok () ∧
+    Rule.check .gt0 (.leaf (.inf true)) ≠ .ok () ∧
+    Rule.check .floats (.leaf (.inf true)) ≠ .ok () ∧
+    Rule.check .le1 (.leaf (.inf false)) ≠ .ok () ∧
+    Rule.check .devices (.leaf (.inf neg)) ≠ .ok () ∧
+    Rule.check .floats (.leaf (.list (l₁ ++ .nan :: l₂))) ≠ .ok () ∧
+    Rule.check .floats (.leaf (.list (l₁ ++ .inf true :: l₂))) ≠ .ok () := by
+  refine ⟨?_, ?_, ?_, ?_, ?_, ?_, ?_, ?_⟩
+  · cases neg <;> simp [Rule.check, Value.asExt?, Ext.le]
+  · simp [Rule.check, Value.asExt?, Ext.le]
+  · simp [Rule.check, Value.asExt?, Ext.lt]
+  · simp [Rule.check, Value.isNonnegFloat]
+  · simp [Rule.check, Value.asExt?, Ext.le]
+  · cases neg <;> simp [Rule.check, Value.isNonnegInt]
+  · simp [Rule.check, Value.isNonnegFloat]
+  · simp [Rule.check, Value.isNonnegFloat]
+
+/-- hence no object the constructors accept holds NaN in a validated field -/
+theorem validators_reject_nan {env : Env} {cls : String} {kw kvs : Kvs}
+    (h : mk env cls kw = .ok (.node kvs)) {f : String} {r : Rule} (hr : (f, r) ∈ fieldRules cls) :
+    lookup f kvs ≠ some (.leaf .nan) := fun hl =>
+  nan_rejected r (validators_reject h hr hl)
+
+/-- all seven probability fields (and every other range-validated field) are in the table -/
+example : (["uniform_noise_p", "gaussian_noise_p", "contrast_p", "brightness_p"].all
+      (fun f => (fieldRules "IntensityConfig").any (fun fr => fr.1 == f))) = true ∧
+    (["affine_p", "erase_p", "mixup_p"].all
+      (fun f => (fieldRules "GeometricConfig").any (fun fr => fr.1 == f))) = true := by
+  simp [fieldRules]
 
 /-- more than one backbone, or more than one head type, is rejected (`oneof`) -/
 theorem oneof_rejects {env : Env} {cls : String} {kw kvs : Kvs}
